@@ -795,8 +795,14 @@ def c17_allocate(env):
             probes = [(st0, mxv, k0)] if (k0 <= 64 and mxv <= 64) else []
             probes += [(9, 0, 1), (9, 2, 3), (9, 2, 2), (9, 0, 0), (st0, 3, 1)]
             cmds = [f"alloc {a} {b} {c}" for a, b, c in probes]
+            # histories with a hole: k sessions, an older one ends, a new one begins
+            holes = [(3, 0), (3, 1), (2, 0), (4, 2)]
+            cmds += [f"alloc 9 65535 {k} {h + 1}" for k, h in holes]
 
             def bad(outs):
+                for (k, h), js in zip(holes, outs[len(probes):]):
+                    if js.get("panic") or not js["ok"] or js["dup"] or js["channel"] != h:
+                        return True
                 for (a, b, c), js in zip(probes, outs):
                     opened = a not in (0, 1, 2, 3, 11, 12, 13)
                     want_ok = opened and c <= b
@@ -1689,17 +1695,17 @@ def c06_transfer_split(env):
         b = model_value(m, B)
         pl = model_value(m, PL)
         # natively at a small frame size: body 60 (frame 64), the model's payload scaled into range
-        probes = [(64, x) for x in (0, 1, 20, 30, 31, 32, 60, 61, 90, 120, 150)]
-        cmds = [f"split {fs} {n} 1" for fs, n in probes]
+        probes = [(64, x, mo) for x in (0, 1, 20, 30, 31, 32, 60, 61, 90, 120, 150) for mo in (0, 1)]
+        cmds = [f"split {fs} {n} 1 {mo}" for fs, n, mo in probes]
 
         def bad(outs):
-            for (fs, n), js in zip(probes, outs):
+            for (fs, n, mo), js in zip(probes, outs):
                 if js.get("panic") or not js["payload_ok"]:
                     return True
                 fr = js["frames"]
                 for i, f in enumerate(fr):
                     last = i == len(fr) - 1
-                    if (not last and f["len"] != fs) or f["len"] > fs or f["more"] != (not last):
+                    if (not last and f["len"] != fs) or f["len"] > fs or f["more"] != ((mo == 1) if last else True):
                         return True
                     if (i > 0 and (f["has_id"] or f["has_tag"] or f["has_fmt"])) or (i == 0 and not (f["has_id"] and f["has_tag"])):
                         return True
@@ -1997,3 +2003,127 @@ def c20_io_fill_buffer(env):
 
 REGISTRY.setdefault("C20", []).append(c20_io_fill_buffer)
 REGISTRY.setdefault("C04", []).append(c04_io_fill_buffer)
+
+
+# ---- C04 / C15: the frame decoders' own buffer arithmetic, for frames of every length ------------
+
+
+def _frame_decoder_bounds(env, prop, which):
+    pat = {"amqp": r"^amqp::<impl at fe2o3-amqp/src/frames/amqp\.rs[^>]*>::decode$", "sasl": r"^frames::sasl::<impl at fe2o3-amqp/src/frames/sasl\.rs[^>]*>::decode$"}[which]
+    o = Obligation(f"{prop.lower()}_{which}_frame_decoder_bounds", prop)
+    o.desc = f"{which.upper()} frame decoder on a frame of ANY length with ANY header bytes (what a peer can put behind a size field): every get_u8/get_u16/get_u32, advance and split_to stays inside the bytes that are there, no arithmetic overflow -- the decoder's own code cannot panic, whatever doff, type and length say"
+    fn = env.fn(pat)
+    o.functions = [fn.name]
+    o.bounds = ["frame length: every value < 2^32; doff, type, channel bytes symbolic; one decode call"]
+    o.assumes = ["bytes::Buf::get_uN / advance / BytesMut::split_to panic exactly when fewer bytes remain than asked for (documented)", "deserializing the performative consumes some prefix of the remaining bytes and returns Ok or Err (the deserializer's own totality is C04's Kani harnesses)"]
+    ex = env.executor(max_visits=4)
+    R0 = BV64("frame.len")
+
+    def world(st):
+        return st.locals["@world"]
+
+    def take(st, k, what):
+        w = world(st)
+        kk = z3.BitVecVal(k, 64) if isinstance(k, int) else k
+        st.obligations.append((f"{what}: enough bytes remain", z3.ULE(kk, w["rem"]), list(st.cond)))
+        w["rem"] = w["rem"] - kk
+
+    def m_len(ex_, st, callee, args, argvals, dty):
+        return world(st)["rem"]
+
+    def m_is_empty(ex_, st, callee, args, argvals, dty):
+        return world(st)["rem"] == 0
+
+    def m_get(ex_, st, callee, args, argvals, dty):
+        m = re.search(r"::get_([ui])(\d+)(_le|_ne)?$", callee)
+        bits = int(m.group(2))
+        take(st, bits // 8, f"get_{m.group(1)}{bits}")
+        w = world(st)
+        v = z3.BitVec(f"hdr.byte{len(w['gets'])}.{m.group(1)}{bits}", bits)
+        w["gets"] = w["gets"] + (v,)
+        return v
+
+    def m_advance(ex_, st, callee, args, argvals, dty):
+        take(st, argvals[1], "advance")
+        return mir.Agg("unit")
+
+    def m_split_to(ex_, st, callee, args, argvals, dty):
+        take(st, argvals[1], "split_to")
+        return mir.Agg("BytesMut")
+
+    def m_split(ex_, st, callee, args, argvals, dty):
+        world(st)["rem"] = z3.BitVecVal(0, 64)
+        return mir.Agg("BytesMut")
+
+    def m_truncate(ex_, st, callee, args, argvals, dty):
+        w = world(st)
+        w["rem"] = z3.If(z3.ULT(argvals[1], w["rem"]), argvals[1], w["rem"])
+        return mir.Agg("unit")
+
+    def m_deser(ex_, st, callee, args, argvals, dty):
+        w = world(st)
+        r2 = z3.BitVec(f"rem.after.deserialize#{ex_.ctx.n}", 64)
+        ex_.ctx.n += 1
+        ex_.assumptions.append(z3.ULE(r2, w["rem"]))
+        w["rem"] = r2
+        w["deser"] = w["deser"] + 1
+        r = mir.Agg("Result")
+        ex_.new_discr(st, r, "Result")
+        okv = mir.Agg("Ok")
+        val = mir.Agg("value")
+        okv[0] = val
+        r[("as", "Ok")] = okv
+        return r
+
+    def m_keep(ex_, st, callee, args, argvals, dty):
+        return mir.Agg("opaque")
+
+    ex.models = [
+        (r"^BytesMut::len$|as Buf>::remaining$", m_len),
+        (r"^BytesMut::is_empty$|as Buf>::has_remaining$", lambda *a: z3.Not(m_is_empty(*a)) if a[2].endswith("has_remaining") else m_is_empty(*a)),
+        (r"as Buf>::get_[ui](8|16|32|64)(_le|_ne)?$", m_get),
+        (r"as Buf>::advance$", m_advance),
+        (r"^BytesMut::split_to$", m_split_to),
+        (r"^BytesMut::split$|^BytesMut::split_off$", m_split),
+        (r"^BytesMut::truncate$|^BytesMut::clear$", m_truncate),
+        (r"as Buf>::reader$|^IoReader::<.*>::new$|Deserializer::<.*>::new$", m_keep),
+        (r"as Deserialize<'_>>::deserialize::<", m_deser),
+    ]
+    w = mir.Agg("world")
+    w["rem"], w["gets"], w["deser"] = R0, (), 0
+    paths = ex.run(fn, {"_1": mir.Ref(("@dec",), True), "@dec": mir.Agg("decoder"), "_2": mir.Ref(("@src",), True), "@src": mir.Agg("src"), "@world": w})
+    hyp = ex.assumptions + [z3.ULT(R0, 1 << 32)]
+
+    def replay(m):
+        n = model_value(m, R0)
+        hdr = [0, 0, 0, 0]
+        for d in m.decls():
+            mm = re.match(r"hdr\.byte(\d+)\.u(\d+)$", d.name())
+            if mm and int(mm.group(1)) < 4:
+                hdr[int(mm.group(1))] = m[d].as_long()
+        cmds = [f"framedec {which} {hdr[0]} {hdr[1]} {min(n, 70000)}"]
+        # directed probes around the model: the model's header and the small data offsets with every short length
+        cmds += [f"framedec {which} {d} {hdr[1]} {k}" for d in sorted({hdr[0], 0, 1, 2, 3, 4, 5, 255}) for k in range(0, 24)]
+        return cmds, (lambda outs: any(js.get("panic") for js in outs))
+
+    n = 0
+    for i, p in enumerate(paths):
+        if p.end.startswith("loop-bound"):
+            raise mir.Unsupported("frame decoder contains a loop that the unrolling bound does not exhaust")
+        for (d, okc, c) in p.obligations:
+            n += 1
+            o.prove(f"path{i}:{d}", hyp + c, okc, replay=replay)
+    o.cover("a frame with a body reaches the performative deserializer", [z3.BoolVal(any(p.locals["@world"]["deser"] > 0 for p in paths if p.end == "return"))] + hyp + [z3.UGT(R0, 4)])
+    return o
+
+
+def c15_frame_decoder_bounds(env):
+    return [_frame_decoder_bounds(env, "C15", "amqp"), _frame_decoder_bounds(env, "C15", "sasl")]
+
+
+def c04_frame_decoder_bounds(env):
+    return [_frame_decoder_bounds(env, "C04", "amqp"), _frame_decoder_bounds(env, "C04", "sasl")]
+
+
+REGISTRY.setdefault("C15", []).append(c15_frame_decoder_bounds)
+REGISTRY.setdefault("C04", []).append(c04_frame_decoder_bounds)
